@@ -283,6 +283,9 @@ impl Dfs<'_> {
                     let ctx = path.join(" | ");
                     let r = child.step(&call, &mut ch, &ctx);
                     self.executions += 1;
+                    if self.executions % 4096 == 0 {
+                        crate::rt::tick();
+                    }
                     if let Err(e) = r {
                         path.pop();
                         return Err(e);
